@@ -1,6 +1,7 @@
 package checks
 
 import (
+	"math/big"
 	"bytes"
 	"encoding/json"
 	"fmt"
@@ -66,6 +67,14 @@ var c13Values = []c13Value{
 	{"bytes", []byte{0, 1, 0xff}, true, false},
 	{"int-map-keys", map[any]any{int64(1): "one", int64(-2): []byte{2}}, true, false},
 	{"uint-above-int32", int64(1) << 40, true, true},
+	// integers outside int64 (COSE: plain integers down to -2^64 and up to 2^64-1, bignums beyond): value and sign are what was signed
+	// (unsigned integers above int64 are refused by the reader outright, which is safe; the largest one it reads is 2^63-1)
+	{"uint64-2^63-1", uint64(math.MaxInt64), true, false},
+	{"negative-int-just-below-int64", new(big.Int).Sub(big.NewInt(math.MinInt64), big.NewInt(1)), true, false},
+	{"negative-int--2^64", new(big.Int).Neg(new(big.Int).Lsh(big.NewInt(1), 64)), true, false},
+	{"negative-bignum", new(big.Int).Neg(new(big.Int).Lsh(big.NewInt(3), 70)), true, false},
+	{"positive-bignum", new(big.Int).Lsh(big.NewInt(3), 70), true, false},
+	{"list-with-negative-int-below-int64", []any{"a", new(big.Int).Neg(new(big.Int).Lsh(big.NewInt(1), 64))}, true, false},
 }
 
 func labelsFor(media string) []c13Label {
@@ -185,7 +194,7 @@ func c13Body(c *mc.Ctx, media, scheme string, maxN int) {
 		c.Cover("value:" + values[(i*3+vrot)%len(values)].name)
 	}
 	spec := newEnvSpec(media, cont, "p256-e")
-	extra := c.Choose("crit-extra", 10)
+	extra := c.Choose("crit-extra", 16)
 	mustReject, recorded := false, false
 	switch extra {
 	case 4:
@@ -215,6 +224,26 @@ func c13Body(c *mc.Ctx, media, scheme string, maxN int) {
 			spec.crit = append(spec.crit, int64(3))
 		} else {
 			spec.crit = append(spec.crit, "cty")
+		}
+		recorded = true
+	case 10, 11, 12, 13, 14, 15:
+		// an optional specification header that is present with a value that says nothing (null; an empty text / CBOR undefined), named in
+		// crit or not. Whether such an envelope is accepted is not C13's subject; if it is, the header is still a specification header
+		// and never one of the extended attributes.
+		name := envenc.HdrExpiry
+		if extra == 12 || extra == 13 {
+			name = envenc.HdrSigningTime
+			if scheme == envenc.SchemeX509 {
+				name = envenc.HdrAuthTime
+			}
+		}
+		if extra >= 14 {
+			spec.hSet(name, `""`, envenc.CUndefined())
+		} else {
+			spec.hSet(name, "null", envenc.CNull())
+		}
+		if extra == 11 || extra == 13 || extra == 15 {
+			spec.crit = append(spec.crit, name)
 		}
 		recorded = true
 	case 6, 7, 8, 9:
